@@ -77,6 +77,18 @@ CLAIMS["C11"] = (
     "reassembles the original payload' is decided per frame only.",
     "DESIGN.md section 4, C11")
 
+CLAIMS["C16"] = (
+    "After COM_STMT_EXECUTE on a known statement every return path -- success, malformed packet, binder or rewrite error -- leaves all "
+    "parameters of that statement unbound (deferred reset registered right after the lookup; obligations per return); unknown ids fail; "
+    "handleStmtReset clears the statement; handleStmtSendLongData writes exactly one parameter slot of exactly one statement (frame "
+    "obligation per store) and rejects unknown ids / out-of-range parameters; bindStmtArgs and the binary date formatters write only the "
+    "statement's args (frame verified in bit-vector mode).",
+    "Assumed: handleQuery and GetRewriteSQL do not write the statement table or Stmt fields (assumed callee contracts, listed in the evidence); "
+    "panic paths are not modelled (bindStmtArgs may panic on truncated values; the deferred reset runs during unwinding); the session "
+    "invariant stmtWF (len(args) == paramCount) is assumed at entry; handleStmtPrepare / handleStmtClose are not under contract, so "
+    "'statements never see each other's values' is decided per command for execute/reset/long-data only.",
+    "DESIGN.md section 4, C16")
+
 NA = {
 }
 
